@@ -5,7 +5,8 @@ from pcv import core, capio, textgen
 
 P = "PcVerif.Props.C14."
 THEOREMS = [P + t for t in ["dfxp_lang_fallback", "dfxp_default_lang_pinned", "dfxp_languages_first_appearance", "primary_syncs_sorted",
-                              "sami_lang_test_pinned", "stylesheet_declares_every_language", "stylesheet_old_test_counterexample"]]
+                              "sami_lang_test_pinned", "stylesheet_declares_every_language", "stylesheet_old_test_counterexample",
+                              "plan_sorted", "paragraphs_in_own_block"]]
 CODES = ["en-US", "fr-FR", "de", "es-419", "en", "pt-BR", "fi", "fil", "es", "est"]   # also codes that are plain string prefixes of another (fi / fil)
 
 
